@@ -107,7 +107,8 @@ def model_pdu(p, cfg):
         d["inside"] = True
         d["fits"] = d["len"] <= cfg["seg"]
     elif k == "EOF":
-        d.update({"dir": "c2r", "size": n, "ckok": True, "loc": False, "ok": True})
+        # an adversarial peer may announce a wrong size ("size") or a checksum that is not the source's ("ckok": false)
+        d.update({"dir": "c2r", "size": p.get("size", n), "ckok": p.get("ckok", True), "loc": False, "ok": True})
     elif k == "Metadata":
         d.update({"dir": "c2r", "size": n, "closure": cfg["closure"], "nreqs": len(cfg["fsreqs"]), "ok": True})
     elif k == "ACK":
